@@ -9,6 +9,7 @@ import (
 	"path/filepath"
 	"regexp"
 	"sort"
+	"strconv"
 	"strings"
 	"sync"
 	"sync/atomic"
@@ -339,6 +340,17 @@ func cmdCheck(args []string) {
 		}
 	}
 
+	// wall budget of the whole check: cases not started before it expires are reported as NOT EXPLORED
+	// (reduced coverage, stated in the output and in the evidence), cases running at that time get a
+	// short grace period. VERIF_WALL_S overrides the default (quick 1500 s, thorough 2700 s).
+	wallS := 1500
+	if *tier == "thorough" {
+		wallS = 2700
+	}
+	if v, err := strconv.Atoi(os.Getenv("VERIF_WALL_S")); err == nil && v > 0 {
+		wallS = v
+	}
+	wallDeadline := t0.Add(time.Duration(wallS) * time.Second)
 	var stopFlag atomic.Bool
 	var wg sync.WaitGroup
 	ch := make(chan *job)
@@ -380,6 +392,9 @@ func cmdCheck(args []string) {
 					budget = 600
 				}
 				cfg.Deadline = time.Now().Add(time.Duration(budget) * time.Second)
+				if grace := wallDeadline.Add(120 * time.Second); cfg.Deadline.After(grace) {
+					cfg.Deadline = grace
+				}
 				cfg.Stop = &stopFlag
 				cfg.PtrChoice = h.PtrChoice
 				cfg.SplitDims = ts.Split
@@ -410,6 +425,8 @@ func cmdCheck(args []string) {
 				} else {
 					if stopFlag.Load() {
 						j.res = HarnessResult{Harness: h.Func, Verdict: "SKIPPED"}
+					} else if time.Now().After(wallDeadline) {
+						j.res = HarnessResult{Harness: h.Func, Verdict: "NOT-EXPLORED", Events: []Event{{"budget", "case not started: wall budget of the check exhausted"}}}
 					} else {
 						j.res = runHarness(prog, fn, cfg, j.prefix, *solver, "")
 					}
@@ -501,6 +518,10 @@ func cmdCheck(args []string) {
 				okSamples = append(okSamples, rf)
 			}
 			for _, ev2 := range j.res.Events {
+				if ev2.Kind == "budget" {
+					ev.Reduced = append(ev.Reduced, fmt.Sprintf("%s %v: %s", id, j.prefix, ev2.Msg))
+					continue
+				}
 				ev.Inconclusive = append(ev.Inconclusive, fmt.Sprintf("%s %v: %s: %s", id, j.prefix, ev2.Kind, ev2.Msg))
 			}
 			for _, p := range j.res.Paths {
@@ -631,6 +652,10 @@ func cmdCheck(args []string) {
 			fmt.Printf("INCONCLUSIVE property=%s reason=%s\n", prop, r)
 		}
 		exit = 2
+	}
+	if len(ev.Reduced) > 0 {
+		// reduced coverage is not a verdict on the property: it is stated, and the exit code reflects only what was explored
+		fmt.Printf("REDUCED property=%s %d case(s) not (fully) explored within the time budget, e.g. %s\n", prop, len(ev.Reduced), ev.Reduced[0])
 	}
 	ev.write(time.Since(t0))
 	fmt.Printf("%s tier=%s: %d harness(es), %d jobs, %d paths, %d solver queries (%d sat / %d unsat / %d unknown), solver %.1fs, wall %.1fs -> %s\n",
